@@ -94,7 +94,7 @@ def program_for(kind, spelling):
         return "%s: fn int -> int : external\nstart :: fn do\n    print(%s(1))\n    g :: %s\n    print(g(2))\nend\n" % ((spelling,) * 3)
     if kind == "string":
         return 'start :: fn do\n    s := "%s"\n    print(s)\n    print(s + "x")\nend\n' % spelling
-    return "start :: fn do\n    v := %s\n    print(v)\n    w := -%s\n    print(w)\n    print(1 - -%s)\nend\n" % (spelling, spelling, spelling)
+    return "start :: fn do\n    v := %s\n    print(v)\n    w := -%s\n    print(w)\n    print(%s - -%s)\nend\n" % (spelling, spelling, spelling, spelling)
 
 
 # ------------------------------------------------------------------ structural family
@@ -210,7 +210,7 @@ def run(tier):
             sg = sig_of(base)
             if sg in first_fail: sg += ":from-%d" % first_fail[sg]
             fnd.report(sg, "%s: accepted by the compiler but the chunk does not load: %s" % (role, msg), {"main.sy": src, "out.lua": lua or ""}, cmd="sylt -o out.lua main.sy && luac -p out.lua")
-        elif st == "rejected" and (role.startswith("catalogue:") or role.startswith("identifier-ordinary") or role.startswith("string-plain")):
+        elif st == "rejected" and (role.startswith("catalogue:") or role.startswith("identifier-ordinary") or role.startswith("string-plain") or role.startswith("float-")):      # a float spelling of the token language in `v := LIT` is a valid program: a rejection means the witness program is wrong (vacuous class)
             fnd.undecided("%s: rejected by the compiler: %s" % (role, msg.replace("\n", " ")[:200]))
         if st == "timeout": print("NOTE compiler timeout (not a C06 matter, see C07): " + role)
         if len(samples) < 6 and (st != "loads" or role.startswith(("identifier-is", "string-raw"))): samples.append({"case": role, "result": st, "detail": msg[:160]})
